@@ -207,3 +207,384 @@ Proof.
     destruct v; try reflexivity;
       cbn [compare_step numv_of fconv]; rewrite arith_nan_r; reflexivity.
 Qed.
+
+(* strings: `byte := N` is unbounded in the model and schar is only injective below 256
+   (schar 0 = schar 256 = 0), so equality-by-bytes needs the byte range *)
+Lemma schar_inj : forall x y, (x < 256)%N -> (y < 256)%N -> schar x - schar y = 0 -> x = y.
+Proof.
+  intros x y Hx Hy. unfold schar.
+  destruct (N.ltb_spec x 128); destruct (N.ltb_spec y 128); lia.
+Qed.
+
+Lemma str_cmp_eq_sign : forall s t, is_equal (str_cmp s t) = Z.eqb (string_compare s t) 0.
+Proof.
+  intros s t. unfold str_cmp. rewrite is_equal_rev.
+  destruct (Z.ltb_spec (string_compare s t) 0) as [H|H].
+  - symmetry. apply Z.eqb_neq. lia.
+  - destruct (Z.ltb_spec 0 (string_compare s t)) as [H'|H']; symmetry.
+    + apply Z.eqb_neq. lia.
+    + apply Z.eqb_eq. lia.
+Qed.
+
+Lemma string_compare_eq : forall s t,
+  Forall (fun b => (b < 256)%N) s -> Forall (fun b => (b < 256)%N) t ->
+  Z.eqb (string_compare s t) 0 = bytes_eqb s t.
+Proof.
+  induction s as [|x s IH]; intros t Hs Ht; destruct t as [|y t];
+    cbn [string_compare bytes_eqb]; try reflexivity.
+  inversion Hs as [|? ? Hx Hs']; subst. inversion Ht as [|? ? Hy Ht']; subst.
+  destruct (N.eqb x y) eqn:E; cbn [andb].
+  - apply IH; assumption.
+  - apply Z.eqb_neq. intros H. apply schar_inj in H; try assumption.
+    apply N.eqb_neq in E. contradiction.
+Qed.
+
+Lemma bytes_eqb_sym : forall s t, bytes_eqb s t = bytes_eqb t s.
+Proof.
+  induction s as [|x s IH]; destruct t as [|y t]; cbn [bytes_eqb]; try reflexivity.
+  rewrite (N.eqb_sym x y), (IH t). reflexivity.
+Qed.
+
+(* requested statement `forall s t, op_eq (JStr s) (JStr t) = bytes_eqb s t` is false for
+   out-of-range bytes (see str_eq_by_bytes_needs_range below); proved for real bytes *)
+Theorem str_eq_by_bytes : forall s t,
+  Forall (fun b => (b < 256)%N) s -> Forall (fun b => (b < 256)%N) t ->
+  op_eq (JStr s) (JStr t) = bytes_eqb s t.
+Proof.
+  intros s t Hs Ht. unfold op_eq.
+  rewrite compare_scalar by (intros; discriminate).
+  cbn [compare_step]. rewrite str_cmp_eq_sign. rewrite (bytes_eqb_sym s t).
+  apply string_compare_eq; assumption.
+Qed.
+
+Theorem str_eq_by_bytes_needs_range :
+  op_eq (JStr [0%N]) (JStr [256%N]) = true /\ bytes_eqb [0%N] [256%N] = false.
+Proof. split; reflexivity. Qed.
+
+(* ------------------------------------------------------------------------------------------ *)
+(* (4) antisymmetry                                                                             *)
+(* ------------------------------------------------------------------------------------------ *)
+
+(* well-formed: every object, at any depth, has pairwise distinct keys *)
+Fixpoint wf (v : jv) : Prop :=
+  match v with
+  | JArr l => fold_right (fun x P => wf x /\ P) True l
+  | JObj l => NoDup (map fst l) /\ fold_right (fun kv P => wf (snd kv) /\ P) True l
+  | _ => True
+  end.
+
+Lemma wf_arr_in : forall l x, wf (JArr l) -> In x l -> wf x.
+Proof.
+  induction l as [|y l IH]; intros x H Hin; [destruct Hin|].
+  cbn [wf fold_right] in H. destruct H as [Hy Hl]. destruct Hin as [->|Hin]; [exact Hy|].
+  apply IH; assumption.
+Qed.
+
+Lemma wf_arr_iff : forall l, wf (JArr l) <-> Forall wf l.
+Proof.
+  induction l as [|y l IH]; cbn [wf fold_right].
+  - split; intros; constructor.
+  - split.
+    + intros [Hy Hl]. constructor; [exact Hy|]. apply IH. exact Hl.
+    + intros H. inversion H as [|? ? Hy Hl]; subst. split; [exact Hy|]. apply IH. exact Hl.
+Qed.
+
+Lemma wf_obj_nodup : forall l, wf (JObj l) -> NoDup (map fst l).
+Proof. intros l H. exact (proj1 H). Qed.
+
+Lemma wf_obj_in : forall l k v, wf (JObj l) -> In (k, v) l -> wf v.
+Proof.
+  intros l k v [_ H]. revert H.
+  induction l as [|y l IH]; intros H Hin; [destruct Hin|].
+  cbn [fold_right] in H. destruct H as [Hy Hl]. destruct Hin as [->|Hin]; [exact Hy|].
+  apply IH; assumption.
+Qed.
+
+Lemma wf_obj_iff : forall l,
+  wf (JObj l) <-> NoDup (map fst l) /\ Forall (fun kv => wf (snd kv)) l.
+Proof.
+  intros l. cbn [wf].
+  assert (H : fold_right (fun kv P => wf (snd kv) /\ P) True l <-> Forall (fun kv => wf (snd kv)) l).
+  { induction l as [|y l IH]; cbn [fold_right].
+    - split; intros; constructor.
+    - split.
+      + intros [Hy Hl]. constructor; [exact Hy|]. apply IH. exact Hl.
+      + intros H. inversion H as [|? ? Hy Hl]; subst. split; [exact Hy|]. apply IH. exact Hl. }
+  rewrite H. reflexivity.
+Qed.
+
+(* sizes of members *)
+Lemma jsize_arr_in : forall l x, In x l -> (jsize x < jsize (JArr l))%nat.
+Proof.
+  intros l x Hin. cbn [jsize].
+  induction l as [|y l IH]; [destruct Hin|].
+  cbn [fold_right]. destruct Hin as [->|Hin]; [lia|]. specialize (IH Hin). lia.
+Qed.
+
+Lemma jsize_obj_in : forall l k v, In (k, v) l -> (jsize v < jsize (JObj l))%nat.
+Proof.
+  intros l k v Hin. cbn [jsize].
+  induction l as [|y l IH]; [destruct Hin|].
+  cbn [fold_right]. destruct Hin as [->|Hin]; [cbn [snd]; lia|]. specialize (IH Hin). lia.
+Qed.
+
+(* scalars *)
+Lemma cmp_rev_invol : forall c, cmp_rev (cmp_rev c) = c.
+Proof. destruct c; reflexivity. Qed.
+
+Lemma cmp_Z_swap : forall a b, cmp_Z a b = cmp_rev (cmp_Z b a).
+Proof.
+  intros a b. unfold cmp_Z.
+  destruct (Z.ltb_spec a b); destruct (Z.ltb_spec b a); try reflexivity. lia.
+Qed.
+
+Lemma SFcompare_swap : forall a b, SFcompare a b = option_map CompOpp (SFcompare b a).
+Proof.
+  intros a b.
+  destruct a as [sa|sa| |sa ma ea]; destruct b as [sb|sb| |sb mb eb];
+    try reflexivity;
+    try (destruct sa; reflexivity);
+    try (destruct sb; reflexivity);
+    try (destruct sa, sb; reflexivity).
+  cbn [SFcompare option_map].
+  rewrite (Z.compare_antisym ea eb).
+  change (Pcompare ma mb Eq) with (Pos.compare ma mb).
+  change (Pcompare mb ma Eq) with (Pos.compare mb ma).
+  rewrite (Pos.compare_antisym ma mb).
+  destruct sa, sb; try reflexivity;
+    destruct (Z.compare ea eb); cbn [CompOpp]; try reflexivity;
+    destruct (Pos.compare ma mb); reflexivity.
+Qed.
+
+Lemma cmp_f64_swap : forall a b, cmp_f64 a b = cmp_rev (cmp_f64 b a).
+Proof.
+  intros a b. unfold cmp_f64, f_lt, f_gt, f_eq. rewrite (SFcompare_swap a b).
+  destruct (SFcompare b a) as [[| |]|]; reflexivity.
+Qed.
+
+Lemma arith_swap : forall a b, arith a b = cmp_rev (arith b a).
+Proof.
+  intros a b. destruct a, b; unfold arith; first [apply cmp_f64_swap | apply cmp_Z_swap].
+Qed.
+
+Lemma string_compare_swap : forall a b, string_compare a b = - string_compare b a.
+Proof.
+  induction a as [|x a IH]; destruct b as [|y b]; cbn [string_compare]; try reflexivity.
+  rewrite (N.eqb_sym y x). destruct (N.eqb x y); [apply IH|lia].
+Qed.
+
+Lemma str_cmp_swap : forall s t, str_cmp s t = cmp_rev (str_cmp t s).
+Proof.
+  intros s t. unfold str_cmp. rewrite (string_compare_swap s t).
+  destruct (Z.ltb_spec (- string_compare t s) 0);
+  destruct (Z.ltb_spec 0 (- string_compare t s));
+  destruct (Z.ltb_spec (string_compare t s) 0);
+  destruct (Z.ltb_spec 0 (string_compare t s)); try reflexivity; lia.
+Qed.
+
+Lemma raw_compare_swap : forall a b, raw_compare a b = cmp_rev (raw_compare b a).
+Proof.
+  induction a as [|x a IH]; destruct b as [|y b]; cbn [raw_compare]; try reflexivity.
+  rewrite (N.eqb_sym y x). destruct (N.eqb x y) eqn:E; [apply IH|].
+  apply N.eqb_neq in E.
+  destruct (N.ltb_spec x y); destruct (N.ltb_spec y x); try reflexivity; lia.
+Qed.
+
+(* arrays *)
+Lemma arr_eq_with_ext : forall f g la lb,
+  (forall a b, In a la -> In b lb -> f b a = g b a) ->
+  arr_eq_with f la lb = arr_eq_with g la lb.
+Proof.
+  induction la as [|a la IH]; intros lb H; destruct lb as [|b lb]; cbn [arr_eq_with]; try reflexivity.
+  rewrite (H a b) by (left; reflexivity).
+  f_equal. apply IH. intros a' b' Ha Hb. apply H; right; assumption.
+Qed.
+
+Lemma arr_eq_with_swap : forall f la lb,
+  (forall a b, In a la -> In b lb -> is_equal (f b a) = is_equal (f a b)) ->
+  arr_eq_with f la lb = arr_eq_with f lb la.
+Proof.
+  induction la as [|a la IH]; intros lb H; destruct lb as [|b lb]; cbn [arr_eq_with]; try reflexivity.
+  rewrite (H a b) by (left; reflexivity).
+  f_equal. apply IH. intros a' b' Ha Hb. apply H; right; assumption.
+Qed.
+
+(* objects *)
+Lemma beqb_true : forall a b, bytes_eqb a b = true -> a = b.
+Proof.
+  induction a as [|x a IH]; destruct b as [|y b]; cbn [bytes_eqb]; intros H; try discriminate.
+  - reflexivity.
+  - apply andb_true_iff in H. destruct H as [H1 H2].
+    apply N.eqb_eq in H1. apply IH in H2. subst. reflexivity.
+Qed.
+
+Lemma beqb_refl : forall a, bytes_eqb a a = true.
+Proof.
+  induction a as [|x a IH]; cbn [bytes_eqb]; [reflexivity|].
+  rewrite N.eqb_refl. exact IH.
+Qed.
+
+Lemma assoc_get_in : forall k l w, assoc_get k l = Some w -> In (k, w) l.
+Proof.
+  induction l as [|[k0 v0] l IH]; intros w H; cbn [assoc_get] in H; [discriminate|].
+  destruct (bytes_eqb k k0) eqn:E.
+  - apply beqb_true in E. subst. inversion H; subst. left. reflexivity.
+  - right. apply IH. exact H.
+Qed.
+
+Lemma assoc_get_nodup : forall k v l, NoDup (map fst l) -> In (k, v) l -> assoc_get k l = Some v.
+Proof.
+  induction l as [|[k0 v0] l IH]; intros Hnd Hin; [destruct Hin|].
+  cbn [map fst] in Hnd. inversion Hnd as [|? ? Hnotin Hnd']; subst.
+  cbn [assoc_get]. destruct Hin as [Heq|Hin].
+  - inversion Heq; subst. rewrite beqb_refl. reflexivity.
+  - destruct (bytes_eqb k k0) eqn:E.
+    + apply beqb_true in E. subst. exfalso. apply Hnotin.
+      apply in_map_iff. exists (k0, v). split; [reflexivity|exact Hin].
+    + apply IH; assumption.
+Qed.
+
+Lemma forallb_ext_In : forall (A : Type) (p q : A -> bool) (l : list A),
+  (forall x, In x l -> p x = q x) -> forallb p l = forallb q l.
+Proof.
+  induction l as [|a l IH]; intros H; cbn [forallb]; [reflexivity|].
+  rewrite (H a) by (left; reflexivity). f_equal. apply IH. intros x Hx. apply H. right. exact Hx.
+Qed.
+
+Lemma obj_eq_with_ext : forall f g x y,
+  (forall k v k' w, In (k, v) x -> In (k', w) y -> f w v = g w v) ->
+  obj_eq_with f x y = obj_eq_with g x y.
+Proof.
+  intros f g x y H. unfold obj_eq_with. f_equal.
+  apply forallb_ext_In.
+  intros [k v] Hin. cbn [fst snd].
+  destruct (assoc_get k y) as [w|] eqn:E; [|reflexivity].
+  apply assoc_get_in in E. rewrite (H k v k w Hin E). reflexivity.
+Qed.
+
+Lemma obj_eq_with_imp : forall f x y,
+  NoDup (map fst x) -> NoDup (map fst y) ->
+  (forall k v w, In (k, v) x -> In (k, w) y -> is_equal (f w v) = true -> is_equal (f v w) = true) ->
+  obj_eq_with f x y = true -> obj_eq_with f y x = true.
+Proof.
+  intros f x y Hx Hy Hsym H. unfold obj_eq_with in *.
+  apply andb_true_iff in H. destruct H as [Hall Hlen].
+  apply Nat.eqb_eq in Hlen.
+  apply andb_true_iff. split; [|apply Nat.eqb_eq; symmetry; exact Hlen].
+  rewrite forallb_forall in Hall.
+  assert (Hincl : incl (map fst x) (map fst y)).
+  { intros k Hk. apply in_map_iff in Hk. destruct Hk as [[k1 v] [Hk1 Hin]]. cbn [fst] in Hk1. subst k1.
+    specialize (Hall _ Hin). cbn [fst snd] in Hall.
+    destruct (assoc_get k y) as [w|] eqn:E; [|discriminate].
+    apply assoc_get_in in E. apply in_map_iff. exists (k, w). split; [reflexivity|exact E]. }
+  assert (Hincl' : incl (map fst y) (map fst x)).
+  { apply NoDup_length_incl; [exact Hx| |exact Hincl].
+    rewrite !map_length. lia. }
+  apply forallb_forall. intros [k w] Hin. cbn [fst snd].
+  assert (Hk : In k (map fst x)).
+  { apply Hincl'. apply in_map_iff. exists (k, w). split; [reflexivity|exact Hin]. }
+  apply in_map_iff in Hk. destruct Hk as [[k1 v] [Hk1 Hinx]]. cbn [fst] in Hk1. subst k1.
+  rewrite (assoc_get_nodup k v x Hx Hinx).
+  specialize (Hall _ Hinx). cbn [fst snd] in Hall.
+  rewrite (assoc_get_nodup k w y Hy Hin) in Hall.
+  apply (Hsym k v w Hinx Hin Hall).
+Qed.
+
+Lemma obj_eq_with_swap : forall f x y,
+  NoDup (map fst x) -> NoDup (map fst y) ->
+  (forall k v w, In (k, v) x -> In (k, w) y -> is_equal (f w v) = is_equal (f v w)) ->
+  obj_eq_with f x y = obj_eq_with f y x.
+Proof.
+  intros f x y Hx Hy Hsym.
+  destruct (obj_eq_with f x y) eqn:E1; destruct (obj_eq_with f y x) eqn:E2; try reflexivity.
+  - rewrite <- E2. symmetry. apply obj_eq_with_imp; try assumption.
+    intros k v w Hv Hw H. rewrite <- (Hsym k v w Hv Hw). exact H.
+  - rewrite <- E1. apply obj_eq_with_imp; try assumption.
+    intros k w v Hw Hv H. rewrite (Hsym k v w Hv Hw). exact H.
+Qed.
+
+(* fuel independence *)
+Lemma compare_fuel_indep : forall n m a b,
+  (jsize a + jsize b <= n)%nat -> (jsize a + jsize b <= m)%nat ->
+  compare_fuel n a b = compare_fuel m a b.
+Proof.
+  induction n as [|n IH]; intros m a b Hn Hm.
+  - pose proof (jsize_pos a). lia.
+  - destruct m as [|m]; [pose proof (jsize_pos a); lia|].
+    rewrite !compare_fuel_S.
+    destruct a; try reflexivity; destruct b; try reflexivity; cbn [compare_step].
+    + rewrite (arr_eq_with_ext (compare_fuel n) (compare_fuel m) l l0); [reflexivity|].
+      intros x y Hx Hy. apply jsize_arr_in in Hx. apply jsize_arr_in in Hy.
+      apply IH; lia.
+    + rewrite (obj_eq_with_ext (compare_fuel n) (compare_fuel m) l0 l); [reflexivity|].
+      intros k v k' w Hv Hw. apply jsize_obj_in in Hv. apply jsize_obj_in in Hw.
+      apply IH; lia.
+Qed.
+
+Lemma compare_enough_fuel : forall n a b,
+  (jsize a + jsize b <= n)%nat -> compare_fuel n a b = compare a b.
+Proof. intros n a b H. unfold compare. apply compare_fuel_indep; lia. Qed.
+
+Lemma compare_fuel_swap : forall n a b,
+  (jsize a + jsize b <= n)%nat -> wf a -> wf b ->
+  compare_fuel n a b = cmp_rev (compare_fuel n b a).
+Proof.
+  induction n as [|n IH]; intros a b Hn Ha Hb; [reflexivity|].
+  rewrite !compare_fuel_S.
+  destruct a; destruct b; cbn [compare_step numv_of]; try reflexivity;
+    try (f_equal; apply arith_swap).
+  - apply str_cmp_swap.
+  - f_equal. apply raw_compare_swap.
+  - rewrite (arr_eq_with_swap (compare_fuel n) l l0).
+    + destruct (arr_eq_with (compare_fuel n) l0 l); reflexivity.
+    + intros x y Hx Hy.
+      pose proof (jsize_arr_in _ _ Hx). pose proof (jsize_arr_in _ _ Hy).
+      rewrite (IH y x); [apply is_equal_rev|lia| |].
+      * exact (wf_arr_in _ _ Hb Hy).
+      * exact (wf_arr_in _ _ Ha Hx).
+  - rewrite (obj_eq_with_swap (compare_fuel n) l0 l).
+    + destruct (obj_eq_with (compare_fuel n) l l0); reflexivity.
+    + apply wf_obj_nodup. exact Hb.
+    + apply wf_obj_nodup. exact Ha.
+    + intros k v w Hv Hw.
+      pose proof (jsize_obj_in _ _ _ Hv). pose proof (jsize_obj_in _ _ _ Hw).
+      rewrite (IH w v); [apply is_equal_rev|lia| |].
+      * exact (wf_obj_in _ _ _ Ha Hw).
+      * exact (wf_obj_in _ _ _ Hb Hv).
+Qed.
+
+Lemma compare_swap : forall a b, wf a -> wf b -> compare a b = cmp_rev (compare b a).
+Proof.
+  intros a b Ha Hb. unfold compare. rewrite (Nat.add_comm (jsize b) (jsize a)).
+  apply compare_fuel_swap; [lia|exact Ha|exact Hb].
+Qed.
+
+Theorem eq_symmetric : forall a b, wf a -> wf b -> op_eq a b = op_eq b a.
+Proof.
+  intros a b Ha Hb. unfold op_eq. rewrite (compare_swap a b Ha Hb). symmetry. apply is_equal_rev.
+Qed.
+
+Theorem lt_is_gt_swapped : forall a b, wf a -> wf b -> op_lt a b = op_gt b a.
+Proof.
+  intros a b Ha Hb. unfold op_lt, op_gt. rewrite (compare_swap a b Ha Hb).
+  destruct (compare b a); reflexivity.
+Qed.
+
+Theorem gt_is_lt_swapped : forall a b, wf a -> wf b -> op_gt a b = op_lt b a.
+Proof. intros a b Ha Hb. symmetry. apply lt_is_gt_swapped; assumption. Qed.
+
+Theorem le_is_ge_swapped : forall a b, wf a -> wf b -> op_le a b = op_ge b a.
+Proof.
+  intros a b Ha Hb. rewrite le_is_lt_or_eq, ge_is_gt_or_eq.
+  rewrite (lt_is_gt_swapped a b Ha Hb), (eq_symmetric a b Ha Hb). reflexivity.
+Qed.
+
+Theorem ne_symmetric : forall a b, wf a -> wf b -> op_ne a b = op_ne b a.
+Proof. intros a b Ha Hb. rewrite !ne_is_not_eq, (eq_symmetric a b Ha Hb). reflexivity. Qed.
+
+(* wf cannot be dropped: with a repeated key == is not symmetric (known finding) *)
+Lemma eq_asymmetric_dup_keys :
+  let a := JObj [([107%N], JInt 1); ([107%N], JInt 2)] in
+  let b := JObj [([107%N], JInt 1); ([107%N], JInt 1)] in
+  op_eq a b = false /\ op_eq b a = true.
+Proof. split; reflexivity. Qed.
